@@ -107,6 +107,7 @@ def run(tier, seed, only_case=None):
     r.assumptions = ["chunks are duplicate-free internally (a duplicate inside one chunk is invalid input, C13)"]
     if only_case is None:
         r.model_check("MC_Merge", "MC_Merge_quick.cfg" if tier == "quick" else "MC_Merge_thorough.cfg")
+        r.expect_refuted("MC_Merge", "MC_Merge_pinned.cfg", "PassStructurePinned")       # F10: the pinned first-pass edges are refuted
         cs = cases(tier, seed)
     else:
         cs = [only_case]
